@@ -133,6 +133,15 @@ func (t *tracer) hook(point string, args ...interface{}) {
 	}
 }
 
+// evEnd records the end of a handler together with whether its context was cancelled, sampled inside the tracer's lock: the
+// library's observation points are logged under the same lock, so "live" logged after a point that follows a cancellation
+// means live after that cancellation
+func (t *tracer) evEnd(token int, ctx interface{ Err() error }) {
+	t.mu.Lock()
+	t.evs = append(t.evs, tev{T: int64(time.Since(t.t0)), Seq: len(t.evs), Point: "h.end", Conn: "harness", Args: []interface{}{token, ctx.Err() != nil}})
+	t.mu.Unlock()
+}
+
 // harness-side event
 func (t *tracer) ev(point string, args ...interface{}) {
 	t.mu.Lock()
